@@ -147,7 +147,14 @@ def run(tier, v):
                 v.violation({"part": "accounting", "run": {k: run_[k] for k in ("crate", "nw", "queue", "batch")}, "observed": "panic: " + o["panic"]})
                 continue
             if o["timed_out"]:
-                raise vlib.ToolError("pool run %d did not drain within 30 s" % o["id"])
+                if any(w["q"] for w in o["stats"]["workers"]):
+                    raise vlib.ToolError("pool run %d did not drain within 30 s (packets still queued)" % o["id"])
+                # the queues are empty, yet fewer packets were taken up by workers than were reported queued: packets vanished
+                nq = sum(1 for oc in o["outcomes"] for x in oc if x == "queued")
+                nt = sum(1 for e in o["events"] if e["kind"] == 0)
+                v.violation({"part": "accounting", "run": {k: run_[k] for k in ("crate", "nw", "queue", "batch")}, "reported_queued": nq, "analysed": nt,
+                             "counted_dropped": o["stats"]["dropped"], "observed": "%d packets reported queued left the queue without being analysed or counted as dropped" % (nq - nt)})
+                continue
             n_runs += 1
             f.write(json.dumps({"k": "reset", "crate": run_["crate"], "nw": run_["nw"], "run": o["id"]}) + "\n")
             unroutable = 0
